@@ -9,6 +9,8 @@ pub mod c02;
 pub mod c03;
 #[cfg(feature = "native")]
 pub mod c05;
+#[cfg(feature = "native")]
+pub mod c06;
 pub mod c07;
 pub mod c08;
 pub mod c09;
@@ -30,6 +32,8 @@ pub fn lookup(id: &str) -> Option<Box<dyn Check>> {
         "C03" => Some(Box::new(c03::C03)),
         #[cfg(feature = "native")]
         "C05" => Some(Box::new(c05::C05)),
+        #[cfg(feature = "native")]
+        "C06" => Some(Box::new(c06::C06)),
         "C07" => Some(Box::new(c07::C07)),
         "C08" => Some(Box::new(c08::C08)),
         "C09" => Some(Box::new(c09::C09)),
